@@ -63,6 +63,21 @@ func (r *RAT[K, V]) Write(k K, value V) {
 	}
 }
 
+// WriteSorted writes a value below the values that have to stay more recent
+// than it (younger), instead of on top of them.
+func (r *RAT[K, V]) WriteSorted(k K, value V, younger func(V) bool) {
+	r.Write(k, value)
+	idx := r.idx[k]
+	for j := 1; j < r.written[k]; j++ {
+		previous := (idx - 1 + r.length) % r.length
+		if !younger(r.values[k][previous]) {
+			break
+		}
+		r.values[k][idx], r.values[k][previous] = r.values[k][previous], r.values[k][idx]
+		idx = previous
+	}
+}
+
 func (r *RAT[K, V]) Values() map[K]V {
 	m := make(map[K]V)
 	for k, v := range r.idx {
